@@ -342,3 +342,144 @@ class CoapPutCharacteristics:
         return result is status and ((len(want) == 0 and calls == []) or (len(calls) == 1 and calls[0][1] == want))
 
     ensures = [listeners_hear_exactly_the_accepted_readable_ones]
+
+
+# ------------------------------------------------------------------------------------------------- reads (IP)
+
+
+def _ip_get_setup(it):
+    """a bridge: accessory 1 answers reads with values, accessory 2 is unreachable (-70402).  A request that
+    mentions accessory 1 gets a per-characteristic reply; a request for accessory 2 alone gets a request-wide
+    status without a list"""
+    vals = {k: it.fresh(Int, f"v_{k[0]}_{k[1]}") for k in WIDS}
+    req = [{(1, 10)}, {(1, 10), (2, 20)}, {(1, 10), (1, 11), (2, 20)}, {(2, 20)}][it.ctx.choose([0, 1, 2, 3])]
+
+    class Conn(StubObj):
+        def m_get_json(self, it, url):
+            ids = [tuple(int(x) for x in part.split(".")) for part in url.split("id=")[1].split(",")]
+            it.ctx.trace.append(("get_json", url, ids))
+            if all(a == 2 for a, i in ids):
+                reply = {"status": -70402}
+            else:
+                reply = {"characteristics": [{"aid": a, "iid": i, "value": vals[(a, i)]} if a == 1 else {"aid": a, "iid": i, "status": -70402} for a, i in ids]}
+            return Coro(lambda: reply, "get_json")
+
+    p = SObj(IpPairing, label="pairing")
+    p.fields.update(connection=Conn(), accessories=_AccModel({}), _ensure_connected=_Noop(), list_accessories_and_characteristics=_Noop())
+    it.ctx.ghost.update(vals=vals, req=req)
+    return {"self": p, "characteristics": set(req)}
+
+
+@contract("aiohomekit.controller.ip.pairing:IpPairing.get_characteristics", prop="C13")
+class IpGetCharacteristics:
+    setup = _ip_get_setup
+    raises = {}
+
+    def value_or_status_for_every_requested(req, vals, trace, result):
+        """every requested characteristic comes back with the accessory's value (accessory 1) or its error status
+        (accessory 2) - a request-wide error never replaces a value the accessory returned; each id is asked
+        for exactly once, rendered aid.iid"""
+        asked = [k for e in trace if e[0] == "get_json" for k in e[2]]
+        return (
+            set(result.keys()) == set(req)
+            and all(("value" in result[k] and result[k]["value"] == vals[k] and "status" not in result[k]) if k[0] == 1 else result[k]["status"] == -70402 for k in req)
+            and sorted(asked) == sorted(req)
+            and all(e[1].startswith("/characteristics?id=") for e in trace if e[0] == "get_json")
+        )
+
+    ensures = [value_or_status_for_every_requested]
+
+
+# ------------------------------------------------------------------------------------------------- writes (BLE)
+
+from aiohomekit.controller.ble.pairing import BlePairing  # noqa: E402
+from aiohomekit.controller.ble.client import PDUStatusError  # noqa: E402
+from aiohomekit.pdu import OpCode as BleOp  # noqa: E402
+from contracts.c15_tlv import EncodeList  # noqa: E402,F401
+
+BIDS = [(1, 10), (1, 11), (1, 12)]
+
+
+class _BleChar(StubObj):
+    def __init__(self, perms):
+        self.f_perms = perms
+        self.f_format = "uint8"
+        self.f_iid = 0
+
+
+def _ble_put_setup(it):
+    from aiohomekit.controller.ble import pairing as _bp
+
+    n = 1 + it.ctx.choose([0, 1, 2])
+    perms_opts = [["pr", "pw"], ["pw"], ["pr", "tw"], ["pr"]]
+    table = {BIDS[j]: _BleChar(perms_opts[it.ctx.choose([0, 1, 2, 3])]) for j in range(n)}
+    req = [(BIDS[j][0], BIDS[j][1], it.fresh(Int, f"value{j}")) for j in range(n)]
+    rejected_at = it.ctx.choose(["none"] + [str(j) for j in range(n)])
+    it.env.stub(_bp.to_bytes, lambda it, char, value: b"\x01")
+    writes = []
+
+    class Req(StubObj):
+        def sym_call(self, it, opcode, char, payload=None):
+            key = next(k for k, c in table.items() if c is char)
+            writes.append((key, opcode))
+            it.ctx.trace.append(("ble_request", key, opcode))
+
+            def run():
+                if rejected_at != "none" and BIDS[int(rejected_at)] == key:
+                    it.raise_exc(PDUStatusError, 6, "rejected")
+                return b""
+
+            return Coro(run, "_async_request_under_lock")
+
+    p = SObj(BlePairing, label="ble-pairing")
+    from pyvc import stubs_asyncio as aio
+
+    p.fields.update(name="ble", rssi=-50, accessories=_AccModel({(1, k[1]): c for k, c in table.items()}), _ble_request_lock=aio.LockStub(),
+                    _async_request_under_lock=Req(), _callback_listeners=_Listeners())
+    it.ctx.ghost.update(req=req, table=table, rejected_at=rejected_at)
+    return {"self": p, "characteristics": req}
+
+
+@contract("aiohomekit.controller.ble.pairing:BlePairing.put_characteristics", prop="C13")
+class BlePutCharacteristics:
+    """1..3 characteristics (readable+writable / write-only / timed-write / read-only), the accessory rejecting the
+    write of none or of one of them (a rejected BLE write raises; the decorators are not part of this contract)"""
+
+    setup = _ble_put_setup
+    raises = {PDUStatusError: True}
+
+    def outcome_per_characteristic(req, table, rejected_at, trace, result):
+        return _ble_clause(req, table, rejected_at, trace, result)
+
+    def outcome_per_characteristic_x(req, table, rejected_at, trace):
+        return rejected_at != "none" and _ble_clause(req, table, rejected_at, trace, None)
+
+    ensures = [outcome_per_characteristic]
+    exsures = [outcome_per_characteristic_x]
+
+
+def _ble_clause(req, table, rejected_at, trace, result):
+    """listeners hear the new value of exactly the readable characteristics whose write request(s) came back
+    without error BEFORE the call ended - also when a later one is rejected; a characteristic that is neither
+    pw nor tw is never written and is reported with a non-zero read-only status; no accepted one is reported"""
+    calls = [e for e in trace if e[0] == "listeners"]
+    ok = True
+    stop = False
+    for j in range(len(req)):
+        key = (req[j][0], req[j][1])
+        perms = table[key].perms
+        writable = "pw" in perms or "tw" in perms
+        wrote = [e for e in trace if e[0] == "ble_request" and e[1] == key]
+        heard = [c for c in calls if key in c[1]]
+        if stop:
+            ok = ok and wrote == [] and heard == []
+        elif not writable:
+            ok = ok and wrote == [] and heard == [] and (result is None or (key in result and result[key]["status"] != 0))
+        elif rejected_at == str(j):
+            ok = ok and heard == [] and len(wrote) >= 1
+            stop = True
+        else:
+            ok = ok and len(wrote) == (2 if "tw" in perms else 1)
+            ok = ok and (len(heard) == (1 if "pr" in perms else 0)) and all(c[1] == {key: {"value": req[j][2]}} for c in heard)
+            ok = ok and (result is None or key not in result)
+    return ok
